@@ -35,7 +35,12 @@ pub(crate) fn parse_defchordv2(
                 t: ref exprs,
                 span: _,
             }) if matches!(exprs.first(), Some(SExpr::Atom(a)) if a.t == "include") => {
-                let file_name = exprs[1].atom(s.vars()).unwrap();
+                let Some(file_name) = exprs.get(1).and_then(|e| e.atom(s.vars())) else {
+                    return Ok(vec![Err(anyhow_expr!(
+                        &chunk[0],
+                        "include must be followed by one file name"
+                    ))]);
+                };
                 let chord_translation = ChordTranslation::create(
                     file_name,
                     &chunk[2],
@@ -43,9 +48,14 @@ pub(crate) fn parse_defchordv2(
                     &chunk[4],
                     &s.layers[0][0],
                 );
-                let chord_definitions = parse_chord_file(file_name).unwrap();
+                let chord_definitions = match parse_chord_file(file_name) {
+                    Ok(defs) => defs,
+                    Err(e) => return Ok(vec![Err(anyhow_expr!(&chunk[0], "{}", e.msg))]),
+                };
                 let processed = chord_definitions.iter().map(|chord_def| {
-                    let chunk = chord_translation.translate_chord(chord_def);
+                    let chunk = chord_translation
+                        .translate_chord(chord_def)
+                        .map_err(|e| anyhow_expr!(&chunk[0], "{}", e.msg))?;
                     parse_single_chord(&chunk, s, &mut all_participating_key_sets)
                 });
                 Ok::<_, ParseError>(processed.collect_vec())
@@ -192,9 +202,8 @@ fn parse_disabled_layers(disabled_layers: &SExpr, s: &ParserState) -> Result<Vec
 
 fn parse_chord_file(file_name: &str) -> Result<Vec<ChordDefinition>> {
     let input_data = fs::read_to_string(file_name)
-        .unwrap_or_else(|_| panic!("Unable to read file {}", file_name));
-    let parsed_chords = parse_input(&input_data).unwrap();
-    Ok(parsed_chords)
+        .map_err(|e| anyhow!("Unable to read file {file_name}: {e}"))?;
+    parse_input(&input_data)
 }
 
 fn parse_input(input: &str) -> Result<Vec<ChordDefinition>> {
@@ -207,8 +216,11 @@ fn parse_input(input: &str) -> Result<Vec<ChordDefinition>> {
                 "Each line needs to have an action separated by a tab character, got '{}'",
                 line
             );
-            let keys = caps.next().expect(&error_message);
-            let action = caps.next().expect(&error_message);
+            let keys = caps.next().ok_or_else(|| anyhow!("{error_message}"))?;
+            let action = caps
+                .next()
+                .filter(|action| !action.is_empty())
+                .ok_or_else(|| anyhow!("{error_message}"))?;
             Ok(ChordDefinition {
                 keys: keys.to_string(),
                 action: action.to_string(),
@@ -322,13 +334,15 @@ impl<'a> ChordTranslation<'a> {
         action_strings
     }
 
-    fn translate_chord(&self, chord_def: &ChordDefinition) -> Vec<SExpr> {
+    fn translate_chord(&self, chord_def: &ChordDefinition) -> Result<Vec<SExpr>> {
         let sexpr_string = format!(
             "(({}) (macro {}))",
             self.participant_keys(&chord_def.keys).join(" "),
             self.action(&chord_def.action).join(" ")
         );
-        let mut participant_action = sexpr::parse(&sexpr_string, self.file_name).unwrap()[0]
+        let mut participant_action = sexpr::parse(&sexpr_string, self.file_name)?
+            .first()
+            .ok_or_else(|| anyhow!("could not translate chord line: {chord_def:?}"))?
             .t
             .clone();
         participant_action.extend_from_slice(&[
@@ -336,6 +350,6 @@ impl<'a> ChordTranslation<'a> {
             self.release_behaviour.clone(),
             self.disabled_layers.clone(),
         ]);
-        participant_action
+        Ok(participant_action)
     }
 }
